@@ -6,11 +6,10 @@
    schedules, replayed on the implementation by ./check C05). What is proved for all schedules is the
    safety half: a closed iterator has no live helper thread, and failures are delivered in stream
    order (C01_fifo_prefix / C01_no_exception_output); and fifo_stream / Parmapper never wedge when the
-   source raises only ordinary exceptions (C05_fifo_no_deadlock). The deadlock-freedom theorem for
-   buffer(n >= 3) is not proved yet (C05_buffer3_no_deadlock_todo): that part rests on the scheduler
-   exploration, which classifies every explored run. *)
+   source raises only ordinary exceptions (C05_fifo_no_deadlock), and neither does buffer(n) for n >= 3
+   (C05_buffer3_no_deadlock). *)
 From MpV Require Import Lib.Conc Proof.CleanupProof Proof.FifoLive.
-From MpV Require Model.Buffer Model.FifoStream.
+From MpV Require Model.Buffer Model.FifoStream Proof.BufferLive.
 From Coq Require Import List ZArith.
 Import ListNotations.
 
@@ -39,6 +38,19 @@ Theorem C05_fifo_no_deadlock :
   FifoStream.deadlocked g (run FifoStream.step g (FifoStream.init g) sched) = false.
 Proof. exact fifo_no_deadlock. Qed.
 Print Assumptions C05_fifo_no_deadlock.
+
+(* Stream.buffer(n) never wedges for n >= 3: for every source that raises only ordinary exceptions (at any position),
+   every position at which the consumer stops early (or none), and every interleaving of the worker thread and the
+   consuming thread, a state in which neither can move is a final state (iterator closed, worker finished). The bound
+   3 is exact: after the consumer's drain saw the queue empty the worker can still put the element it holds, the
+   STOPPED marker and the exception; the refutations below exhibit the hang for n = 1 (and ./check C05 replays the
+   n = 2 schedule on the implementation). *)
+Theorem C05_buffer3_no_deadlock :
+  forall (g : Buffer.cfg) (sched : list Buffer.label),
+  BufferLive.no_base (Buffer.src g) -> 3 <= Buffer.maxsize g ->
+  Buffer.deadlocked g (run Buffer.step g (Buffer.init g) sched) = false.
+Proof. exact BufferLive.buffer_no_deadlock. Qed.
+Print Assumptions C05_buffer3_no_deadlock.
 
 (* Refutation of "no hang" for buffer(1) with an early break: _finalize drains and then joins, while
    the worker still has to put the element it holds and the end marker into a queue of size 1. *)
